@@ -61,6 +61,11 @@ def gen_dataset(rng, raw=False):
         for c in cells:
             if rng.random() < 0.4:
                 c['vec'][rng.randrange(NG)] = rng.randint(2000, 6000)      # a highly expressed gene
+        if NG >= 2 and rng.random() < 0.5:
+            # one count in a cell of 999 999 counts: 1.000001 CPM, just above the "more than 1 CPM" threshold
+            c = rng.choice(cells)
+            c['vec'] = [0] * NG
+            c['vec'][0], c['vec'][1] = 999998, 1
     par = [rng.randint(1, 2) for _ in range(NCl)]
     return {'NF': NF, 'R': rng.randint(1, 6), 'P': rng.randint(1, 4), 'NCl': NCl, 'NG': NG, 'cells': cells,
             'par': par, 'raw': raw, 'enc': [rng.choice(['dense', 'csr', 'csc']) for _ in range(NF)],
